@@ -450,3 +450,51 @@ def r6(ctx):
     ctx.count("cov_object_classes", n)
     if n < 20:
         raise ShapeError("only %d COV-capable object classes found" % n)
+
+
+@rule("C16.R7", "a renewal takes over what it says: the confirmed flag is stored whenever it is given (True or False), kept only when absent; overriding criteria chain to the nearest definition of the method they override",
+      floor=4, engines="E1 paths + E5, E0 MRO")
+def r7(ctx):
+    prog = ctx.prog
+    sub = prog.cls(MOD, "Subscription")
+    m = sub.module
+    f = sub.methods.get("renew_subscription")
+    if f is None:
+        raise AnchorMissing("Subscription.renew_subscription")
+    ev = Evaluator(prog, m, sub)
+    from .common import path_value
+    names = [a.arg for a in f.args.args[1:]]
+    flag = names[1] if len(names) > 1 else "confirmed"
+    for given in (True, False, None):
+        env = {"%s is not None" % flag: given is not None, "%s is None" % flag: given is None, "self.isScheduled": False, names[0]: 60}
+        if given is not None:
+            env[flag] = given
+        outs = set()
+        for p_ in enumerate_paths(f):
+            if p_.term == "raise":
+                continue
+            k_, v_ = path_value(p_, ev, env, "self.confirmed")
+            if k_ == "infeasible":
+                continue
+            outs.add("kept" if k_ == "absent" else v_ if k_ == "value" else "?")
+        want = {"kept"} if given is None else {given}
+        ctx.check("Subscription.renew_subscription:confirmed[%r]" % (given,), outs == want, where(m, f),
+                  "a renewal asking for confirmed=%r must leave the flag %s (found %s)" % (given, "as it was" if given is None else "at that value", sorted(map(str, outs))))
+    # explicit base calls in overriding methods go to the next definition in the MRO (skipping a level loses what that level does)
+    n = 0
+    for cname, c in sorted(m.classes.items()):
+        mro = prog.mro(c)
+        for mname, fn in sorted(c.methods.items()):
+            for x in calls_in(fn):
+                if isinstance(x.func, ast.Attribute) and x.func.attr == mname and isinstance(x.func.value, ast.Name) and x.args and norm(x.args[0]) == "self":
+                    tgt = prog.resolve_class_expr(m, x.func.value)
+                    if tgt is None or tgt is c or tgt not in mro:
+                        continue
+                    nxt = next((k for k in mro[1:] if mname in k.methods), None)
+                    got = prog.find_method(tgt, mname)
+                    n += 1
+                    ctx.check("%s.%s:chains-to-nearest[%s]" % (cname, mname, tgt.name), nxt is not None and got is not None and got[0] is nxt, where(m, x),
+                              "%s.%s calls %s.%s, but the nearest definition it overrides is %s.%s: what that level does (e.g. remembering the reported value) is skipped"
+                              % (cname, mname, tgt.name, mname, nxt.name if nxt else "?", mname))
+    if n < 1:
+        raise ShapeError("service.cov: no explicit base call found")
